@@ -286,6 +286,7 @@ var kwNames = []string{"x", "key", "reverse", "default", "sep", "end", "start", 
 var fixedTime = gotime.Unix(1700000000, 5).UTC()
 
 type callCase struct {
+	oper     bool // block O: m.opc[callable]
 	text     bool // block T: textTemplates[callable] applied to textStrings[args[0]]
 	callable int
 	args     []int
@@ -307,6 +308,10 @@ type callMode struct {
 	tts       []textTemplate
 	tstr      []string
 	tpairs    [][2]int32
+	nO        int64 // block O (opblock.go): operators x operands
+	opv       []poolEntry
+	opc       []opCase
+	singleOp  *opCase
 	singleStr string
 	edge      []int
 	edge3     []int
@@ -353,6 +358,8 @@ func newCallMode(o *opts) *callMode {
 		}
 	}
 	m.nT = int64(len(m.tpairs))
+	m.buildOps()
+	m.nO = int64(len(m.opc))
 	m.nA = C * (1 + P)
 	m.nE = C * int64(len(m.edge)*len(m.edge))
 	m.edge3 = m.edge
@@ -379,7 +386,7 @@ func newCallMode(o *opts) *callMode {
 	m.fns = fns
 	if o.single != "" {
 		m.single = m.parseSingle(o.single)
-		m.nA, m.nB2, m.nB3, m.nS, m.nE, m.nE3, m.nT = 1, 0, 0, 0, 0, 0, 0
+		m.nA, m.nB2, m.nB3, m.nS, m.nE, m.nE3, m.nT, m.nO = 1, 0, 0, 0, 0, 0, 0, 0
 	}
 	return m
 }
@@ -401,7 +408,7 @@ func (m *callMode) Spans(workers int) []span {
 	return out
 }
 
-func (m *callMode) Count() int64 { return m.nA + m.nT + m.nE + m.nE3 + m.nB2 + m.nB3 + m.nS }
+func (m *callMode) Count() int64 { return m.nA + m.nT + m.nO + m.nE + m.nE3 + m.nB2 + m.nB3 + m.nS }
 
 func (m *callMode) decode(i int64) callCase {
 	if m.single != nil {
@@ -422,6 +429,10 @@ func (m *callMode) decode(i int64) callCase {
 		return callCase{text: true, callable: int(m.tpairs[i][0]), args: []int{int(m.tpairs[i][1])}}
 	}
 	i -= m.nT
+	if i < m.nO {
+		return callCase{oper: true, callable: int(i)}
+	}
+	i -= m.nO
 	if i < m.nE {
 		E := int64(len(m.edge))
 		c := i / (E * E)
@@ -475,6 +486,13 @@ func (m *callMode) decode(i int64) callCase {
 	return cc
 }
 
+func (m *callMode) opOf(cc callCase) opCase {
+	if m.singleOp != nil {
+		return *m.singleOp
+	}
+	return m.opc[cc.callable]
+}
+
 func (m *callMode) textOf(cc callCase) string {
 	if m.single != nil {
 		return m.singleStr
@@ -488,6 +506,9 @@ func (m *callMode) Run(i int64) string {
 	thread.SetMaxExecutionSteps(200000)
 	c := &cctx{thread: thread, fns: m.fns}
 	defer c.done()
+	if cc.oper {
+		return m.runOp(c, m.opOf(cc))
+	}
 	if cc.text {
 		v, err := m.tts[cc.callable].run(c, m.textOf(cc))
 		if err != nil {
@@ -572,6 +593,10 @@ func findNil(v starlark.Value, depth int) string {
 }
 
 func (m *callMode) isHuge(cc callCase) bool {
+	if cc.oper {
+		oc := m.opOf(cc)
+		return m.opv[oc.x].huge || (!oc.unary && m.opv[oc.y].huge)
+	}
 	if cc.text {
 		return false
 	}
@@ -590,6 +615,15 @@ func (m *callMode) isHuge(cc callCase) bool {
 
 func (m *callMode) Describe(i int64) map[string]any {
 	cc := m.decode(i)
+	if cc.oper {
+		oc := m.opOf(cc)
+		y := ""
+		if !oc.unary {
+			y = m.opv[oc.y].name
+		}
+		return map[string]any{"callable": "operator:" + oc.op.String(), "unary": oc.unary, "x": m.opv[oc.x].name, "y": y,
+			"call": m.describeOp(oc), "args": []string{}, "kwargs": [][2]string{}, "huge": m.isHuge(cc)}
+	}
 	if cc.text {
 		s := m.textOf(cc)
 		return map[string]any{"callable": "text:" + m.tts[cc.callable].name, "text_b64": base64.StdEncoding.EncodeToString([]byte(s)),
@@ -619,9 +653,33 @@ func (m *callMode) parseSingle(s string) *callCase {
 		Args     []string    `json:"args"`
 		Kwargs   [][2]string `json:"kwargs"`
 		Text     string      `json:"text_b64"`
+		Unary    bool        `json:"unary"`
+		X        string      `json:"x"`
+		Y        string      `json:"y"`
 	}
 	if err := jsonUnmarshal(s, &d); err != nil {
 		panic(err)
+	}
+	if strings.HasPrefix(d.Callable, "operator:") {
+		findV := func(n string) int {
+			for i, p := range m.opv {
+				if p.name == n {
+					return i
+				}
+			}
+			panic("replay: unknown operand " + n)
+		}
+		oc := opCase{unary: d.Unary, x: findV(d.X)}
+		if !d.Unary {
+			oc.y = findV(d.Y)
+		}
+		for _, op := range append(append([]syntax.Token(nil), unaryOps...), binaryOps...) {
+			if "operator:"+op.String() == d.Callable {
+				oc.op = op
+			}
+		}
+		m.singleOp = &oc
+		return &callCase{oper: true}
 	}
 	if strings.HasPrefix(d.Callable, "text:") {
 		b, _ := base64.StdEncoding.DecodeString(d.Text)
@@ -663,6 +721,13 @@ func (m *callMode) parseSingle(s string) *callCase {
 // Key: the callable (without the receiver variant) and what went wrong.
 func (m *callMode) Key(i int64, kind, detail string) string {
 	cc := m.decode(i)
+	if cc.oper {
+		oc := m.opOf(cc)
+		if kind == "timeout" && m.isHuge(cc) {
+			return "call:operator:" + oc.op.String() + ":unbounded-work-on-huge-argument"
+		}
+		return "call:operator:" + oc.op.String() + ":" + kind + ":" + shortDetail(detail)
+	}
 	if cc.text {
 		return "call:text:" + m.tts[cc.callable].name + ":" + kind + ":" + shortDetail(detail)
 	}
@@ -701,6 +766,9 @@ func truncQ(s string) string {
 
 func (m *callMode) Dist(i int64) string {
 	cc := m.decode(i)
+	if cc.oper {
+		return "operator"
+	}
 	if cc.text {
 		return "text"
 	}
